@@ -380,6 +380,328 @@ def r14_7(ctx):
               f"{m} is registered as {decs}, expected [{name!r}]", {"names": decs})
 
 
+# -- R14.8 ------------------------------------------------------------------------
+
+CONVERT = "pytype/convert.py"
+_CONTAINER_KINDS = ("tuple", "frozenset", "list", "set", "dict")
+# value -> abstract caches scanned for raw-constant key components
+_CACHE_FILES = (CONVERT, "pytype/output.py", "pytype/abstract/abstract_utils.py")
+# (file, function, raw parameter in the key) -> why equal-but-differently-typed
+# constants cannot meet in that component
+_RAW_KEY_TRIAGE = {
+    (CONVERT, "Converter._create_new_unknown_value", "action"):
+        "an opcode label: every caller passes a str literal or None (read on "
+        "the reference tree), never a number",
+}
+
+
+def _kind_tests(test, pname):
+  """Container kinds K for which `test` holds only if <pname> is a K."""
+  out = set()
+  for n in ast.walk(test):
+    if isinstance(n, ast.Compare) and len(n.ops) == 1 and \
+        isinstance(n.ops[0], (ast.Is, ast.Eq)):
+      l, r = src(n.left), src(n.comparators[0])
+      for a, b in ((l, r), (r, l)):
+        if a in (f"{pname}.__class__", f"type({pname})") and b in _CONTAINER_KINDS:
+          out.add(b)
+    elif isinstance(n, ast.Call) and dotted(n.func) == "isinstance" and \
+        len(n.args) == 2 and src(n.args[0]) == pname:
+      ks = n.args[1].elts if isinstance(n.args[1], ast.Tuple) else [n.args[1]]
+      for k in ks:
+        if dotted(k) in _CONTAINER_KINDS:
+          out.add(dotted(k))
+  return out
+
+
+def _mentions_type_of(expr, pname):
+  return any(src(n) in (f"type({pname})", f"{pname}.__class__")
+             for n in ast.walk(expr))
+
+
+def _element_types(expr, pname):
+  """`expr` takes type(e) / e.__class__ of the elements e of <pname>, or hands
+  the elements to a function: returns ('types', None) / ('call', callee) / None."""
+  for n in ast.walk(expr):
+    if not isinstance(n, (ast.GeneratorExp, ast.ListComp, ast.SetComp, ast.DictComp)):
+      continue
+    for g in n.generators:
+      its = src(g.iter)
+      if its not in (pname, f"{pname}.items()", f"{pname}.values()", f"{pname}.keys()",
+                     f"sorted({pname})", f"iter({pname})"):
+        continue
+      tnames = {x.id for x in ast.walk(g.target) if isinstance(x, ast.Name)}
+      elts = [n.elt] if not isinstance(n, ast.DictComp) else [n.key, n.value]
+      for e in elts:
+        for m in ast.walk(e):
+          if isinstance(m, ast.Call) and dotted(m.func) == "type" and m.args and \
+              isinstance(m.args[0], ast.Name) and m.args[0].id in tnames:
+            return ("types", None)
+          if isinstance(m, ast.Attribute) and m.attr == "__class__" and \
+              isinstance(m.value, ast.Name) and m.value.id in tnames:
+            return ("types", None)
+        for m in ast.walk(e):
+          if isinstance(m, ast.Call) and dotted(m.func) not in ("type", None) and any(
+              isinstance(a, ast.Name) and a.id in tnames for a in m.args):
+            return ("call", dotted(m.func))
+  for m in ast.walk(expr):
+    if isinstance(m, ast.Call) and dotted(m.func) == "map" and len(m.args) == 2 \
+        and src(m.args[1]) == pname:
+      d = dotted(m.args[0])
+      return ("types", None) if d == "type" else ("call", d)
+  return None
+
+
+def _resolve_helper(mod, fn, callee):
+  """The def a callee name denotes: nested def, module function or self.method."""
+  if callee is None:
+    return None
+  for n in ast.walk(fn):
+    if isinstance(n, ast.FunctionDef) and n is not fn and n.name == callee:
+      return n
+  if callee in mod.functions:
+    return mod.functions[callee]
+  if callee.startswith("self.") and callee.count(".") == 1:
+    cls = mod.parent.get(fn)
+    if isinstance(cls, ast.ClassDef):
+      for st in cls.body:
+        if isinstance(st, ast.FunctionDef) and st.name == callee[5:]:
+          return st
+  return None
+
+
+def _type_key_arms(mod, fn, pname, comp, use_stmt, depth=0):
+  """How the type component of a cache key is computed from <pname>.
+
+  -> (arms, recursive): arms = list of (kinds tested true on the path, kinds
+  tested false, value expr, the function the expr lives in); recursive = the
+  computation calls itself on the elements.
+  """
+  if depth > 3:
+    raise AnalysisError("constant cache key: helper chain too deep")
+  # a call of a helper on the constant: the helper's returns are the arms
+  if isinstance(comp, ast.Call) and len(comp.args) == 1 and not comp.keywords and \
+      src(comp.args[0]) == pname and dotted(comp.func) != "type":
+    h = _resolve_helper(mod, fn, dotted(comp.func))
+    if h is None:
+      raise AnalysisError(f"constant cache key: helper {src(comp.func)} not found")
+    ps = [a.arg for a in h.args.args if a.arg not in ("self", "cls")]
+    if len(ps) != 1:
+      raise AnalysisError(f"constant cache key: helper {h.name} has parameters {ps}")
+    hp = ps[0]
+    arms = []
+    rets = [n for n in ast.walk(h) if isinstance(n, ast.Return) and n.value is not None
+            and mod.enclosing_function(n) is h]
+    if not rets:
+      raise AnalysisError(f"constant cache key: helper {h.name} returns nothing")
+    for r in rets:
+      pos, neg = set(), set()
+      for t, p in flow.guards(mod.parent, r, stop=h):
+        (pos if p else neg).update(_kind_tests(t, hp))
+      arms.append((pos, neg, r.value, h, hp))
+    me = {h.name, f"self.{h.name}"}
+    recursive = any(isinstance(c, ast.Call) and dotted(c.func) in me
+                    for c in ast.walk(h))
+    return arms, recursive
+  if isinstance(comp, ast.Name):
+    from rules._pytd_schema import reaching, defs_at
+    rd = reaching(fn)
+    defs = defs_at(rd, use_stmt, comp.id)
+    if not defs:
+      raise AnalysisError(f"constant cache key: `{comp.id}` has no local definition")
+    arms, rec = [], False
+    for d in defs:
+      if not (isinstance(d, ast.Assign) and len(d.targets) == 1
+              and isinstance(d.targets[0], ast.Name)):
+        raise AnalysisError(f"constant cache key: `{comp.id}` is bound by "
+                            f"{type(d).__name__}")
+      if isinstance(d.value, ast.Call) and len(d.value.args) == 1 and \
+          src(d.value.args[0]) == pname and dotted(d.value.func) not in (
+              "type", "tuple", "frozenset", "list", "set", "sorted"):
+        sub, r2 = _type_key_arms(mod, fn, pname, d.value, d, depth + 1)
+        arms.extend(sub)
+        rec = rec or r2
+        continue
+      pos, neg = set(), set()
+      for t, p in flow.guards(mod.parent, d, stop=fn):
+        (pos if p else neg).update(_kind_tests(t, pname))
+      arms.append((pos, neg, d.value, fn, pname))
+    return arms, rec
+  return [(set(), set(), comp, fn, pname)], False
+
+
+def _converted_container_kinds(mod, fn, pname, seen=None):
+  """Container kinds the converter turns into a value element by element:
+  arms of the dispatch (followed through self.* calls that forward <pname>)
+  that test `<pname>.__class__ is K` / isinstance(<pname>, K)."""
+  seen = seen if seen is not None else set()
+  if fn in seen:
+    return set()
+  seen.add(fn)
+  kinds = set()
+  for n in ast.walk(fn):
+    if isinstance(n, ast.If):
+      kinds |= _kind_tests(n.test, pname)
+    if isinstance(n, ast.Call) and (dotted(n.func) or "").startswith("self.") and \
+        n.args and src(n.args[0]) == pname:
+      h = _resolve_helper(mod, fn, dotted(n.func))
+      if h is not None and h is not fn:
+        ps = [a.arg for a in h.args.args if a.arg != "self"]
+        if ps:
+          kinds |= _converted_container_kinds(mod, h, ps[0], seen)
+  return kinds
+
+
+@rule("R14.8", "C14", floor=6)
+def r14_8(ctx):
+  """A cache from constant *values* to abstract values keys on their types."""
+  mod = get_module(ctx, CONVERT)
+  fn = mod.func("Converter.constant_to_value")
+  params = [a.arg for a in fn.args.args if a.arg != "self"]
+  if not params:
+    raise AnalysisError("constant_to_value: no constant parameter")
+  pname = params[0]
+  subs = [n for n in ast.walk(fn) if isinstance(n, ast.Subscript)
+          and (dotted(n.value) or "").startswith("self.")
+          and "cache" in (dotted(n.value) or "")]
+  if not subs:
+    raise AnalysisError("constant_to_value: no `self.<cache>[key]` access found")
+  from rules._pytd_schema import reaching, defs_at
+  rd = reaching(fn)
+  key_defs = set()
+  for s in subs:
+    if not isinstance(s.slice, ast.Name):
+      raise AnalysisError(f"constant_to_value: cache index `{src(s.slice)}` is "
+                          "not a local name")
+    ds = defs_at(rd, mod.enclosing_stmt(s), s.slice.id)
+    if not ds and mod.enclosing_function(s) is not fn:
+      continue
+    key_defs.update(ds)
+  if len(key_defs) != 1:
+    raise AnalysisError(f"constant_to_value: {len(key_defs)} definitions of the "
+                        "cache key (expected one)")
+  kd = next(iter(key_defs))
+  if not (isinstance(kd, ast.Assign) and isinstance(kd.value, ast.Tuple)):
+    raise AnalysisError("constant_to_value: the cache key is not a tuple display")
+  comps = kd.value.elts
+  raw = [c for c in comps if isinstance(c, ast.Name) and c.id == pname]
+  if not raw:
+    raise AnalysisError("constant_to_value: the cache key does not contain the "
+                        f"constant `{pname}` (the rule is about value-keyed caches)")
+  others = [c for c in comps if c not in raw and not isinstance(c, ast.Constant)]
+  arms, recursive = [], False
+  for c in others:
+    a, r = _type_key_arms(mod, fn, pname, c, kd)
+    arms.extend(a)
+    recursive = recursive or r
+  facts = {"key": src(kd.value),
+           "type_component": [src(a[2])[:80] for a in arms], "recursive": recursive}
+  scalar = [a for a in arms if not a[0] and _mentions_type_of(a[2], a[4])]
+  ctx.check(bool(scalar), "constant_to_value:key-has-type", CONVERT, kd.lineno,
+            f"the memo key {src(kd.value)} holds the constant itself but no "
+            f"type({pname}) component: 1 == 1.0 == True hash equal, so an int, a "
+            "float and a bool constant would share one abstract value", facts)
+  disp = mod.func("Converter._constant_to_value")
+  dparams = [a.arg for a in disp.args.args if a.arg != "self"]
+  kinds = sorted(_converted_container_kinds(mod, disp, dparams[0]))
+  if "tuple" not in kinds:
+    raise AnalysisError("_constant_to_value: the tuple arm of the constant "
+                        "dispatch was not found")
+  for k in kinds:
+    mine = [a for a in arms if k in a[0]]
+    et = [_element_types(a[2], a[4]) for a in mine]
+    f2 = facts | {"kind": k, "arms": [src(a[2])[:80] for a in mine]}
+    if not mine or not all(et):
+      ctx.bad(f"constant_to_value:{k}-key-lacks-element-types", CONVERT, kd.lineno,
+              f"{k} constants are converted element by element, but for a {k} "
+              f"the memo key {src(kd.value)} carries only the container's own "
+              f"type: equal {k}s with differently typed elements "
+              "(e.g. (1, 2) == (1.0, 2.0), {1} == {1.0}) hash equal and the "
+              "later one receives the earlier one's abstract value (wrong "
+              "element types: false alarms and missed errors)", f2)
+      continue
+    deep = recursive or any(
+        e[0] == "call" and _is_recursive(mod, a[3], e[1]) for e, a in zip(et, mine))
+    if not deep:
+      ctx.bad(f"constant_to_value:{k}-key-not-recursive", CONVERT, kd.lineno,
+              f"for a {k} the memo key records the types of the direct "
+              "elements only; constants nest (((1,), 2) == ((1.0,), 2), "
+              "{(1, 2)} == {(1.0, 2.0)}), and the nested element types are not "
+              "in the key, so the later constant receives the earlier one's "
+              "abstract value", f2)
+      continue
+    ctx.ok(f"constant_to_value:{k}-key", CONVERT, kd.lineno, f2)
+  # sibling caches: a raw (unannotated) parameter used as a key component
+  n_sites = 0
+  for rel in _CACHE_FILES:
+    m = get_module(ctx, rel)
+    for f in ast.walk(m.tree):
+      if not isinstance(f, ast.FunctionDef):
+        continue
+      ps = {a.arg: a for a in f.args.args + f.args.kwonlyargs if a.arg not in ("self", "cls")}
+      keys = {}
+      for n in ast.walk(f):
+        if isinstance(n, ast.Subscript) and "cache" in (dotted(n.value) or "").split(".")[-1] \
+            and m.enclosing_function(n) is f:
+          keys.setdefault(src(n.slice), (n, m.enclosing_stmt(n)))
+      if not keys:
+        continue
+      qual = _qual(m, f)
+      rdf = reaching(f)
+      for ktxt, (n, st) in sorted(keys.items()):
+        kexprs = [n.slice]
+        if isinstance(n.slice, ast.Name):
+          kexprs = [d.value for d in defs_at(rdf, st, n.slice.id)
+                    if isinstance(d, ast.Assign)]
+        for ke in kexprs:
+          elts = ke.elts if isinstance(ke, ast.Tuple) else [ke]
+          rawp = [e.id for e in elts if isinstance(e, ast.Name) and e.id in ps
+                  and not _typed_param(ps[e.id])]
+          n_sites += 1
+          construct = f"cache-key:{qual}:{src(ke)[:60]}"
+          if not rawp:
+            ctx.ok(construct, rel, n.lineno, {"key": src(ke), "raw_parameters": []})
+            continue
+          for p in rawp:
+            typed = any(_mentions_type_of(e, p) or (
+                isinstance(e, ast.Name) and e.id != p and any(
+                    isinstance(d, ast.Assign) and _mentions_type_of(d.value, p)
+                    for d in defs_at(rdf, st, e.id))) for e in elts)
+            why = _RAW_KEY_TRIAGE.get((rel, qual, p))
+            ctx.check(typed or why is not None, f"{construct}:{p}", rel, n.lineno,
+                      f"{qual} memoises on the raw value of `{p}` "
+                      f"(key {src(ke)}) without a type({p}) component: equal "
+                      "constants of different types (1, 1.0, True) would share "
+                      "an entry", {"key": src(ke), "typed": typed, "triaged": why})
+  if n_sites < 3:
+    raise AnalysisError(f"only {n_sites} cache-key sites found in {_CACHE_FILES}")
+
+
+def _typed_param(a):
+  """The parameter is annotated with something other than Any/object."""
+  if a.annotation is None:
+    return False
+  return (dotted(a.annotation) or src(a.annotation)).split(".")[-1] not in ("Any", "object")
+
+
+def _qual(mod, node):
+  parts = [node.name]
+  cur = node
+  while cur in mod.parent:
+    cur = mod.parent[cur]
+    if isinstance(cur, (ast.FunctionDef, ast.ClassDef)):
+      parts.append(cur.name)
+  return ".".join(reversed(parts))
+
+
+def _is_recursive(mod, fn, callee):
+  h = _resolve_helper(mod, fn, callee)
+  if h is None:
+    return False
+  me = {h.name, f"self.{h.name}"}
+  return any(isinstance(c, ast.Call) and dotted(c.func) in me for c in ast.walk(h))
+
+
 B = stubs.BUILTINS
 VARIANTS = [
     {"name": "binops-swap-add-and", "rule": "R14.1", "file": VM, "expect": "fire",
